@@ -522,6 +522,39 @@ pub fn run_program(sim: &mut Sim, c: &'static Compiled, variants: &[(&'static st
     // a compiled program that never returns (livelock inside a tick) cannot be interrupted from
     // inside: the watchdog thread reports it from outside (see `watch`)
     let _guard = crate::watch::enter(c, &sim.trace, &plan);
+    if let Some(opname) = prog.kind.strip_prefix("pairwise_") {
+        // no interpreter verdict (the documentation is silent for some histories): the pull- and
+        // push-side realisations of the same program must agree with each other
+        let mut first: Option<Observed> = None;
+        for (vi, (vname, exec)) in variants.iter().enumerate() {
+            let obs = exec(&plan, &ticks_per_step);
+            sim.event(0x30 + obs.log.sink.len() as u64, || format!("variant {vi} ({vname}): tick_after={:?} sink log {:?}", obs.tick_after, obs.log.sink));
+            if let Some((msg, loc)) = &obs.panic {
+                return Outcome::fail(Violation::new(format!("panic/generated_code/{}", prog.kind), format!("variant {vi} ({vname}) panicked at {loc}: {msg}")), total_ticks as u64);
+            }
+            match &first {
+                None => first = Some(obs),
+                Some(f) => {
+                    let mut a = f.log.sink.clone();
+                    let mut b = obs.log.sink.clone();
+                    // per (sink, tick) order is compared as logged: sort by (sink, tick) stably
+                    a.sort_by_key(|e| (e.0, e.1));
+                    b.sort_by_key(|e| (e.0, e.1));
+                    if a != b || f.tick_after != obs.tick_after {
+                        return Outcome::fail(
+                            Violation::new(
+                                format!("variants_disagree/{opname}"),
+                                format!("variant 0 ({}) and variant {vi} ({vname}) of the same program disagree under the same schedule: (sink, tick, item) {:?} vs {:?}", variants[0].0, a, b),
+                            ),
+                            total_ticks as u64,
+                        );
+                    }
+                }
+            }
+        }
+        let n = first.map(|f| f.log.sink.len()).unwrap_or(0);
+        return Outcome::ok(n > 0 && sim.nonbenign > 0, total_ticks as u64);
+    }
     for (vi, (vname, exec)) in variants.iter().enumerate() {
         let obs = exec(&plan, &ticks_per_step);
         sim.event(0x30 + obs.log.sink.len() as u64, || format!("variant {vi} ({vname}): tick_after={:?} sink log {:?} reference log {:?}", obs.tick_after, obs.log.sink, obs.log.refs));
